@@ -20,10 +20,16 @@ RANGE = "core::ops::range::Range"
 ITER = "core::iter::traits::iterator::Iterator"
 
 
+USER_QUERIES = ("core::iter::traits::exact_size::ExactSizeIterator::len", "core::iter::traits::iterator::Iterator::size_hint")
+
+
 def nobb(e):
     if not isinstance(e, tuple):
         return e
     if e and e[0] == "call":
+        if e[1] in USER_QUERIES and len(e) > 5:
+            # what a user iterator reports is not a pure getter: two calls are two (possibly different) answers
+            return ("call", e[1], e[2], tuple(nobb(a) for a in e[3]), e[4], e[5])
         return ("call", e[1], e[2], tuple(nobb(a) for a in e[3]), e[4])
     if e and e[0] == "addr":
         return nobb(e[1])
@@ -149,17 +155,23 @@ def helper_role(F, key):
 
 
 MU_WRITE = "<core::mem::maybe_uninit::MaybeUninit<T>>::write"
+PTR_WRITES = ("core::ptr::write", "<*mut T>::write")
 
 
 def slot_iter_place(F, B, t):
     """For `slot.write(v)` (MaybeUninit::write) whose `slot` is the item of a slice iterator - `for slot in place.iter_mut()` -
     return the expression of `place` (the slice being walked), else None."""
-    if atomics.callee_of(t) != MU_WRITE or len(t["args"]) != 2:
+    if atomics.callee_of(t) not in (MU_WRITE,) + PTR_WRITES or len(t["args"]) != 2:
         return None
     from . import balance as _bal
 
     priv = lambda k: not _bal.is_api(F, F.body(k))
     se = nobb(symx.normalize_calls(F, symx.expr(F, B, t["args"][0]), priv))
+    if atomics.callee_of(t) in PTR_WRITES:
+        # `ptr::write(slot.as_mut_ptr(), v)` / `slot.as_mut_ptr().write(v)`: the raw spelling of `slot.write(v)`
+        if not (se[0] == "call" and se[1] == "<core::mem::maybe_uninit::MaybeUninit<T>>::as_mut_ptr" and se[3]):
+            return None
+        se = se[3][0]
     sn = []
     find_calls(se, lambda e: e[2] == "next" and "slice::iter::IterMut" in e[1], sn)
     if not sn:
@@ -170,6 +182,20 @@ def slot_iter_place(F, B, t):
     while place is not None and place[0] == "call" and place[2] in ("into_iter", "iter_mut") and place[3]:
         place = place[3][0]  # `IntoIterator::into_iter(<[_]>::iter_mut(place))`
     return place
+
+
+def slot_iter_parts(F, B, t):
+    """(start, explicit length or None) of the slice a slot-driven loop walks: the slice place itself, or the pointer and length
+    of `slice::from_raw_parts_mut(ptr, n)`."""
+    place = slot_iter_place(F, B, t)
+    if place is None:
+        return None, None
+    x = place
+    while x[0] in ("addr", "bb") or (x[0] == "proj" and tuple(x[2]) == ("*",)):
+        x = x[-1] if x[0] == "bb" else x[1]
+    if x[0] == "call" and x[2] == "from_raw_parts_mut" and x[1].startswith("core::slice") and len(x[3]) == 2:
+        return x[3][0], x[3][1]
+    return place, None
 
 
 def _roots(B, l, seen):
@@ -252,11 +278,16 @@ def analyse(F, E, b, alloc_len_expr, make_bbs):
         # the slot-driven family: `for slot in <the block's whole slice as &mut [MaybeUninit<T>]> { slot.write(item) }` - the
         # loop is driven by a slice iterator over the slots themselves, so it ends exactly when every slot has been visited
         for bi, t in B.calls():
-            if bi in loop and atomics.callee_of(t) == MU_WRITE:
-                place = slot_iter_place(F, B, t)
+            if bi in loop and atomics.callee_of(t) in (MU_WRITE,) + PTR_WRITES:
+                place, explicit_len = slot_iter_parts(F, B, t)
                 if place is None:
                     continue
                 whole = slot_dst(place) == ("fixed",)
+                if explicit_len is not None:
+                    # `slice::from_raw_parts_mut(<start of the block's slice>, n)`: whole iff n is the length the block was sized for
+                    from .props import c06 as _c06c
+
+                    whole = whole and _c06c.norm_block_len(nobb(explicit_len), data_name) == L
                 writes.append((bi, t, ("slotiter", whole)))
     info["loop_blocks"] = len(loop)
     info["sources"] = [c[0] for _b, _t, c in nexts]
